@@ -210,6 +210,24 @@ def cases(tier, seed):
                             add(dict_case(e2, with_lat, False, f'{note} + {note2}'))
                     except (KeyError, IndexError, ValueError, TypeError):
                         pass
+    # unusual but legal label strings (empty, blank, falsy-looking, non-BMP, very long), also shared across the axes
+    odd_o = ['', ' ', '0', '\U0001F600', 'a' * 300, 'None']
+    odd_p = ['False', '\t', '\u00a0', '|', '#', 'x' * 300]
+    for cx in gen.exh(4):
+        n, m = cx.nG, cx.nM
+        bools = [list(b) for b in cx.bools]
+        for objs, props in ((odd_o[:n], odd_p[:m]), (odd_o[:n][::-1], odd_p[:m][::-1]), (odd_p[:n], odd_o[:m])):
+            add(init_case(objs, props, bools, 'valid'))
+            for o, p, b, note in corrupt_triples(list(objs), list(props), bools, r):
+                add(init_case(o, p, b, note))
+            for i in range(n):
+                for j in range(m):
+                    add(init_case(list(objs), props[:j] + [objs[i]] + props[j + 1:], bools, 'one shared name'))
+            d = {'objects': tuple(objs), 'properties': tuple(props),
+                 'context': [tuple(j for j, x in enumerate(row) if x) for row in bools]}
+            add(dict_case(d, False, False, 'valid'))
+            for e, note in corrupt_dicts(d, r):
+                add(dict_case(e, False, False, note))
     return out
 
 
